@@ -11,6 +11,7 @@ format."""
 import concurrent.futures
 import os
 import random
+import shutil
 import threading
 
 from .. import common, tv
@@ -290,10 +291,39 @@ def run_c11(ck):
     if stats["not_assembled"] > len(progs) // 20:
         raise common.ToolError("%d generated programs did not assemble" % stats["not_assembled"])
 
+    # what `-p` puts on the screen is the same format, byte for byte, followed by one line break: a sample of the
+    # programs goes through the real executable (`-f binary -p`: the bytes as they are, whatever they spell)
+    PRINTED = 1 << 25
+    exe = common.build_binary()
+    import subprocess
+    pdir = os.path.join(ck.wd, "printed")
+    pick = [i for i, (p, r) in enumerate(zip(progs, results))
+            if not (r.get("crash") or r.get("panic") or r.get("error")) and r.get("has_output") and 8 <= r["len"] <= 1024 and r["len"] % 8 == 0]
+    rng2 = random.Random(ck.seed + 1111)
+    for i in rng2.sample(pick, min(len(pick), 12 if quick else 150)):
+        d = os.path.join(pdir, str(i))
+        os.makedirs(d, exist_ok=True)
+        with open(os.path.join(d, "main.asm"), "w") as f:
+            f.write(progs[i]["src"])
+        pr = common.patient_run([exe, "main.asm", "-q", "-f", "binary", "-p"], 30, cwd=d, stdout=subprocess.PIPE, stderr=subprocess.PIPE)
+        base = next((e for e in events if e["case"] == i * len(FORMATS) and e["fmt"] == "binary"), None)
+        if base is None:
+            continue
+        out = pr.stdout
+        e = dict(base)
+        e["case"] = PRINTED + base["case"]
+        e["bytes"] = list(out[:-1]) if out.endswith(b"\n") else list(out) + [0x100]      # (no final line break: not the format)
+        if pr.returncode != 0:
+            e["bytes"] = [0x100]
+        owner[e["case"]] = i
+        events.append(e)
+        ck.evaluations += 1
+    shutil.rmtree(pdir, ignore_errors=True)
+
     # canaries: copies of judged events with one assembled bit flipped; the spec must reject every one
     # (otherwise it does not bind the text to the bits and the run proves nothing)
     CANARY = 1 << 24
-    pool = [e for e in events if e["bits"]]
+    pool = [e for e in events if e["bits"] and e["case"] < PRINTED]
     canaries = []
     for e in rng.sample(pool, min(len(pool), 60 if quick else 600)):
         c = dict(e)
@@ -308,14 +338,14 @@ def run_c11(ck):
         raise common.ToolError("the specification accepted %d outputs with a flipped bit (cases %s): it does not bind"
                                % (len(missed), missed[:10]))
     ck.extra["canaries_rejected"] = len([c for c in canaries if c["case"] in failed])
-    failed = {c: t for c, t in failed.items() if c < CANARY}
-    unjudged = {c for c in unjudged if c < CANARY}
+    failed = {c: t for c, t in failed.items() if c < CANARY or c >= PRINTED}
+    unjudged = {c for c in unjudged if c < CANARY or c >= PRINTED}
     stats["unjudged_unaddressable_block"] = len(unjudged)
     ck.traces += len(events) - len(unjudged)
     by_case = {e["case"]: e for e in events}
     groups = {}
     for case in sorted(failed):
-        fstr = FORMATS[case - owner[case] * len(FORMATS)][0]
+        fstr = "binary:printed" if case >= PRINTED else FORMATS[case - owner[case] * len(FORMATS)][0]
         for tag in sorted(set(failed[case])):
             groups.setdefault("TraceFormats:%s:%s" % (fstr, tag), []).append(case)
     ck.extra["rejections_by_signature"] = {k: len(v) for k, v in groups.items()}
